@@ -45,6 +45,7 @@ class Ctx:
         self.exceptions = []       # (rule, fn, construct, why) actually used
         self.notes = []
         self._ord = {}
+        self._via = {}     # (fn key, point) -> [(pattern, arg_pred)] for sites matched through a helper
 
     # -- anchors --------------------------------------------------------------------------------
     def fn(self, rule, key):
@@ -122,9 +123,52 @@ class Ctx:
     def calls(self, rule, fn, pat, floor=1, arg_pred=None, what=None):
         pts = P.call_points(fn, pat, arg_pred)
         if len(pts) < floor:
+            # the call may have been moved into a helper: a helper all of whose success paths perform it counts
+            # (MustCall summary, inlining bound 3)
+            closed = P.call_points_closed(self.prog, fn, pat, arg_pred, depth=3)
+            if len(closed) >= floor:
+                self.notes.append("%s: %s matched through a helper in %s" % (rule, what or pat, fn.skey))
+                for pt in closed:
+                    if pt not in pts:
+                        self._via.setdefault((fn.key, pt), []).append((pat, arg_pred))
+                pts = closed
+        if len(pts) < floor:
             self.violate(rule, fn, "call:" + (what or pat), "expected at least %d call(s) to %s in %s, found %d"
                          % (floor, what or pat, fn.skey, len(pts)), kind="below-floor")
         return pts
+
+    def direct_sites(self, fn, pt, pat=None):
+        """Where the call really happens: [(function, point)].  For a site matched through a helper (MustCall
+        closure) these are the direct sites inside the helper(s); otherwise the site itself."""
+        via = self._via.get((fn.key, pt))
+        if not via:
+            return [(fn, pt)]
+        out = []
+        t = P.term_at(fn, pt)
+        for p_, pred in via:
+            if pat is not None and p_ != pat:
+                continue
+            for k in self.prog.targets(t):
+                g = self.prog.fns.get(k)
+                if not g:
+                    continue
+                for q in P.call_points_closed(self.prog, g, p_, pred, depth=2):
+                    if P.call_points(g, p_, pred) and q in P.call_points(g, p_, pred):
+                        out.append((g, q))
+        return out or [(fn, pt)]
+
+    def _order_inside_helper(self, fn, pt):
+        """pt satisfies both ends of an ordering through one helper call: check the order inside the helper."""
+        via = self._via.get((fn.key, pt), [])
+        if len(via) < 2:
+            return None
+        t = P.term_at(fn, pt)
+        res = []
+        for k in self.prog.targets(t):
+            g = self.prog.fns.get(k)
+            if g:
+                res.append((g, via))
+        return res
 
     def order_chain(self, rule, fn, chain, cycles=False):
         """chain: list of (label, points).  Each consecutive pair must satisfy A ≺ B."""
@@ -133,6 +177,28 @@ class Ctx:
             if not a or not b:
                 allok = False
                 continue
+            both = [p for p in b if p in a and (fn.key, p) in self._via]
+            if both:
+                # the same helper call performs A and B: the order is decided inside the helper
+                ok_inside = True
+                for p in both:
+                    t = P.term_at(fn, p)
+                    via = self._via[(fn.key, p)]
+                    for k in self.prog.targets(t):
+                        g = self.prog.fns.get(k)
+                        if not g or len(via) < 2:
+                            continue
+                        ga = P.call_points_closed(self.prog, g, via[0][0], via[0][1], depth=2)
+                        gb = P.call_points_closed(self.prog, g, via[-1][0], via[-1][1], depth=2)
+                        # which of the two patterns is A is unknown here: accept if the two sets are totally ordered
+                        # in the order first-registered ≺ last-registered (rules request A before B)
+                        if P.order(g, ga, gb):
+                            ok_inside = False
+                if ok_inside:
+                    self.ok(rule, fn, "%s precedes %s inside the helper called at %s" % (la, lb, P.pt_loc(fn, both[0])), both[:1])
+                    b = [p for p in b if p not in both]
+                    if not b:
+                        continue
             bad = P.order(fn, a, b, cycles=cycles)
             if bad:
                 allok = False
